@@ -602,6 +602,13 @@ fn main() {
             calls.push(call("move_p", a, b));
             calls.push(call("copy", a, b));
         }
+        // copy with a mode option into a destination whose parent directories have to be created (their mode is the source
+        // directory's unless a mode for directories was asked for)
+        for (a, b) in [("/a/a", "/b/x/y"), ("/a", "/n/m"), ("/b/b", "/a/q/r"), ("/b", "/a/n")] {
+            for fl in ["f", "d", "a"] {
+                calls.push(call_b("copy_b", a, b, 0o600, 0, "", fl));
+            }
+        }
         for l in ["/b", "/a/b", "/b/a", "a/a", "./b"] {
             for tg in ["./a", "../a", "a/../b", "./a/b/", "b/..", "..", "/a/./b", "/b/../a"] {
                 calls.push(call("symlink", l, tg));
@@ -688,7 +695,7 @@ fn main() {
             }
             // copy with follow(true): only the documented use - the source itself is the link (DESIGN A24: where entries
             // reached through links BELOW a followed source are placed is an open question on both backends)
-            if c["op"] == "copy_b" {
+            if c["op"] == "copy_b" && c["f"].as_array().map(|f| f.iter().any(|x| x == "F")).unwrap_or(false) {
                 match t.get(&a) {
                     // the link must not lie inside its own target (a followed cycle ends in LinkLooping with an order-dependent
                     // partial result) and the target must not be the sandbox root (whose name differs from "/")
